@@ -55,13 +55,6 @@ Lemma cap_pos c : 1 <= c_num c -> 0 <= c_thr c -> 2 <= cap c.
 Proof. unfold cap. lia. Qed.
 
 (* ---------- which paths an operation can change ---------- *)
-Definition op_paths (o : op) : list path :=
-  match o with
-  | OMkdirAll _ | OReadFile _ _ => []
-  | OCreate q | OWrite q _ | OClose q | OWriteFile q _ | ORemove q => [q]
-  | ORename a b => [a; b]
-  | ORemoveAll _ => []
-  end.
 Definition not_removeall (o : op) : Prop := match o with ORemoveAll _ => False | _ => True end.
 
 Lemma lookup_apply_other p s o :
@@ -81,51 +74,105 @@ Qed.
 (* ---------- the invariant only looks at a few paths ---------- *)
 Definition relevant (c : cfg) (m : mux) (p : path) : Prop :=
   p = PLive \/
-  (exists i, 0 <= i /\ nclosed m - cap c < i < nclosed m /\ p = PTs (hnow m i) i) \/
-  (m_opened m = true /\ p = m_cur m).
+  (exists i, m_base m <= i /\ nclosed m - cap c < i < nclosed m /\ p = PTs (hnow m i) i) \/
+  (m_opened m = true /\ p = m_cur m) \/
+  (nclosed m = m_base m /\ exists now id, id < m_base m /\ p = PTs now id).
+
+(* ---------- the playlist of a previous publication ---------- *)
+Lemma seg_file_ok_ext s s' sg :
+  fs_lookup (PTs (s_now sg) (s_id sg)) s' = fs_lookup (PTs (s_now sg) (s_id sg)) s -> seg_file_ok s sg -> seg_file_ok s' sg.
+Proof. intros E (f & pp & rest & H). exists f, pp, rest. now rewrite E. Qed.
+
+Lemma prev_ok_ext c m m' s s' :
+  m_base m' = m_base m -> m_pfrag m' = m_pfrag m ->
+  fs_lookup PLive s' = fs_lookup PLive s ->
+  (forall now id, id < m_base m -> fs_lookup (PTs now id) s' = fs_lookup (PTs now id) s) ->
+  prev_ok c m s -> prev_ok c m' s'.
+Proof.
+  intros Eb Ep El Et H. unfold prev_ok in *. rewrite El, Eb, Ep. destruct (fs_lookup PLive s) as [f|]; [|exact H].
+  destruct H as (pl & A & B & C & D & F). exists pl.
+  split; [exact A|]. split; [exact B|]. split; [exact C|]. split; [exact D|].
+  eapply Forall_impl; [|exact F]. intros sg (X & Y & Z). unfold prev_seg_ok. rewrite Eb.
+  split; [exact X|]. split; [exact Y|]. eapply seg_file_ok_ext; [|exact Z]. now apply Et.
+Qed.
+
+Lemma prev_ok_mux c m m' s : m_base m' = m_base m -> m_pfrag m' = m_pfrag m -> prev_ok c m s -> prev_ok c m' s.
+Proof. intros Eb Ep. apply prev_ok_ext; auto. Qed.
 
 Lemma inv_ext c m s s' :
   (forall p, relevant c m p -> fs_lookup p s' = fs_lookup p s) -> Inv c m s -> Inv c m s'.
 Proof.
   intros E [H1 H2 H3 H4 H5 H6 H7 H8 H9 H10 H11 H12 H13]. constructor; try assumption.
   - intros i Hi Hw. rewrite E; [now apply H9|]. right; left. now exists i.
-  - intros Ho. rewrite E; [now apply H10|]. right; right. now split.
-  - intros Hn. rewrite E; [now apply H11|]. now left.
+  - intros Ho. rewrite E; [now apply H10|]. right; right; left. now split.
+  - intros Hn. eapply prev_ok_ext; [reflexivity|reflexivity| | |now apply H11].
+    + apply E. now left.
+    + intros now id Hid. apply E. right; right; right. split; [exact Hn|]. now exists now, id.
   - intros Hn. rewrite E; [now apply H12|]. now left.
 Qed.
 
 (* fields the invariant does not read *)
-Lemma inv_irrel c o ts ts' rm rm' nf fr fs pp pp' cur h s :
-  Inv c (mkmux o ts rm nf fr fs pp cur h) s -> Inv c (mkmux o ts' rm' nf fr fs pp' cur h) s.
+Lemma inv_irrel c o ts ts' rm rm' nf fr fs pp pp' cur h b pf s :
+  Inv c (mkmux o ts rm nf fr fs pp cur h b pf) s -> Inv c (mkmux o ts' rm' nf fr fs pp' cur h b pf) s.
 Proof. intros [H1 H2 H3 H4 H5 H6 H7 H8 H9 H10 H11 H12 H13]; constructor; assumption. Qed.
 
 Lemma mle_refl m : mle m m.
-Proof. unfold mle. repeat split; try lia. exists []. now rewrite app_nil_r. Qed.
+Proof. unfold mle. lia. Qed.
+
+Lemma touch_ok_nots b o : (forall p, In p (op_paths o) -> match p with PTs _ _ => False | _ => True end) -> touch_ok b o.
+Proof. intros H p Hp. specialize (H p Hp). destruct p; auto. contradiction. Qed.
 
 Lemma mle_trans a b d : mle a b -> mle b d -> mle a d.
+Proof. unfold mle. lia. Qed.
+
+Lemma mle_same_shape m m' :
+  nclosed m' = nclosed m -> m_base m' = m_base m -> m_pfrag m' = m_pfrag m -> m_frag m' = m_frag m -> mle m m'.
+Proof. intros A B C D. unfold mle, shown. rewrite A, B, C, D. lia. Qed.
+
+Lemma same_pub_refl m : same_pub m m.
+Proof. split; [reflexivity|]. exists []. now rewrite app_nil_r. Qed.
+
+Lemma same_pub_trans a b d : same_pub a b -> same_pub b d -> same_pub a d.
 Proof.
-  intros (H1 & H2 & l1 & H3) (H4 & H5 & l2 & H6). repeat split; try lia.
+  intros (H1 & l1 & H3) (H4 & l2 & H6). split; [congruence|].
   exists (l1 ++ l2)%list. rewrite H6, H3. now rewrite app_assoc.
+Qed.
+
+(* the generic form of rstep for an operation that is neither RemoveAll nor MkdirAll *)
+Definition not_mkdir (o : op) : Prop := match o with OMkdirAll _ => False | _ => True end.
+
+Lemma rstep_plain c m o m1 :
+  not_removeall o -> not_mkdir o -> mle m m1 -> same_pub m m1 ->
+  nclosed m1 = nclosed m + (if is_live_replace o then 1 else 0) -> touch_ok (m_base m) o ->
+  rstep c m o m1.
+Proof.
+  intros Hn Hk A B C D. destruct o; try contradiction; cbn [rstep]; auto.
+Qed.
+
+Lemma rstep_same c m o : not_removeall o -> not_mkdir o -> is_live_replace o = false -> touch_ok (m_base m) o -> rstep c m o m.
+Proof.
+  intros Hn Hk Hl Ht. apply rstep_plain; [exact Hn|exact Hk|apply mle_refl|apply same_pub_refl|rewrite Hl; lia|exact Ht].
 Qed.
 
 (* an operation on paths the invariant does not look at *)
 Lemma chain_irrelevant_op c m s o :
   Inv c m s -> not_removeall o -> is_live_replace o = false ->
   (forall p, relevant c m p -> ~ In p (op_paths o)) ->
+  not_mkdir o -> touch_ok (m_base m) o ->
   chain c m s [o] m /\ Inv c m (apply s o).
 Proof.
-  intros HI Hn Hl Hp.
+  intros HI Hn Hl Hp Hk Ht.
   assert (HI' : Inv c m (apply s o)).
   { eapply inv_ext; [|exact HI]. intros p Hr. apply lookup_apply_other; auto. }
   split; [|exact HI'].
   eapply ch_cons; [|exact HI'|apply ch_nil].
-  unfold rstep. destruct o; try contradiction; (split; [apply mle_refl|rewrite Hl; lia]).
+  now apply rstep_same.
 Qed.
 
 Lemma chain_app c m s a m1 b m2 :
   chain c m s a m1 -> chain c m1 (apply_all s a) b m2 -> chain c m s (a ++ b) m2.
 Proof.
-  induction 1 as [m s|m s o m1 ops m3 Hr Hi Hc IH|m s m1 ops m3 Hl Hn Hi Hc IH]; intros Hb.
+  induction 1 as [m s|m s o m1 ops m3 Hr Hi Hc IH|m s m1 ops m3 Hl Hsp Hn Hi Hc IH]; intros Hb.
   - exact Hb.
   - cbn. eapply ch_cons; eauto.
   - eapply ch_silent; eauto.
@@ -146,11 +193,6 @@ Proof.
     rewrite Nat.add_mod by lia. rewrite Hw, Hk. reflexivity.
   - exists pp, (rest ++ pk)%list. split; [|exact Hp]. subst d. now rewrite app_assoc.
 Qed.
-
-Lemma hnow_app_lt m i l h' :
-  h' = (m_hist m ++ l)%list -> 0 <= i -> i < Z.of_nat (length (m_hist m)) ->
-  nth (Z.to_nat i) h' 0 = hnow m i.
-Proof. intros -> H1 H2. unfold hnow. apply app_nth1. lia. Qed.
 
 Lemma sl_other c m i k f :
   0 < cap c -> i <> k -> - cap c < i - k < cap c ->
@@ -188,14 +230,18 @@ Proof.
   assert (HI : Inv c m s) by (constructor; assumption).
   assert (HC : 2 <= cap c) by (apply cap_pos; lia).
   rewrite Ho in H4. cbn [b2z] in H4. rewrite Hn, Z.add_0_r in H4.
+  assert (Hbn : m_base m <= n) by (unfold n; lia).
   (* after Create *)
   destruct (chain_irrelevant_op c m s (OCreate p) HI I eq_refl) as [Hch1 HI1].
-  { intros q [->|[(i & Hi0 & Hi & ->)|[Hop _]]]; cbn; [intuition discriminate| |congruence].
-    intros [Eq|[]]. injection Eq as _ Eq. lia. }
+  { intros q [->|[(i & Hi0 & Hi & ->)|[[Hop _]|(_ & now0 & id0 & Hid & ->)]]]; cbn; [intuition discriminate| |congruence|].
+    - intros [Eq|[]]. injection Eq as _ Eq. lia.
+    - intros [Eq|[]]. injection Eq as _ Eq. lia. }
+  { exact I. }
+  { intros q [<-|[]]. exact Hbn. }
   set (s1 := apply s (OCreate p)) in *.
   set (fi' := mkfi n fl0 discont true now).
   set (m' := mkmux true ts (m_recmax m) (m_nfrags m) (m_frag m)
-               (set_nth (slot c m (m_nfrags m)) fi' (m_frags m)) (m_patpmt m) p (m_hist m ++ [now])).
+               (set_nth (slot c m (m_nfrags m)) fi' (m_frags m)) (m_patpmt m) p (m_hist m ++ [now]) (m_base m) (m_pfrag m)).
   assert (Hslot : slot c m (m_nfrags m) = Z.to_nat (n mod cap c)) by reflexivity.
   assert (Hsl_other : forall i, i <> n -> - cap c < i - n < cap c -> sl c m' i = sl c m i).
   { intros i Hne Hd. unfold sl, get_slot, m'. cbn [m_frags]. rewrite Hslot.
@@ -203,11 +249,11 @@ Proof.
   assert (Hsl_n : sl c m' n = fi').
   { unfold sl, get_slot, m'. cbn [m_frags]. rewrite Hslot. apply nth_set_nth_eq.
     rewrite H3. apply mod_to_nat_lt. lia. }
-  assert (Hh_lt : forall i, 0 <= i < n -> hnow m' i = hnow m i).
-  { intros i Hi. unfold hnow, m'. cbn [m_hist]. apply app_nth1. lia. }
+  assert (Hh_lt : forall i, m_base m <= i < n -> hnow m' i = hnow m i).
+  { intros i Hi. unfold hnow, m'. cbn [m_hist m_base]. apply app_nth1. lia. }
   assert (Hh_n : hnow m' n = now).
-  { unfold hnow, m'. cbn [m_hist]. rewrite app_nth2 by lia.
-    replace (Z.to_nat n - length (m_hist m))%nat with 0%nat by lia. reflexivity. }
+  { unfold hnow, m'. cbn [m_hist m_base]. rewrite app_nth2 by lia.
+    replace (Z.to_nat (n - m_base m) - length (m_hist m))%nat with 0%nat by lia. reflexivity. }
   assert (Hn' : nclosed m' = n) by reflexivity.
   assert (Hlk : fs_lookup p (apply s1 (OWrite p (m_patpmt m))) = Some (mkfile (m_patpmt m) false)).
   { rewrite lookup_apply. unfold s1. rewrite lookup_apply. rewrite !path_eqb_refl. reflexivity. }
@@ -217,19 +263,21 @@ Proof.
   assert (HI2 : Inv c m' (apply s1 (OWrite p (m_patpmt m)))).
   { constructor; try assumption.
     - unfold m'. cbn. now rewrite set_nth_length.
-    - rewrite Hn'. unfold m'. cbn [m_hist m_opened b2z]. rewrite app_length. cbn [length]. lia.
-    - intros i Hi Hw. rewrite Hn' in Hw. unfold slot_is. rewrite Hsl_other, Hh_lt by lia. apply H5; lia.
+    - rewrite Hn'. unfold m'. cbn [m_hist m_opened m_base b2z]. rewrite app_length. cbn [length]. lia.
+    - intros i Hi Hw. rewrite Hn' in Hw. change (m_base m') with (m_base m) in Hi.
+      unfold slot_is. rewrite Hsl_other, Hh_lt by lia. apply H5; lia.
     - intros _. rewrite Hn'. split; [|now rewrite Hh_n].
       unfold slot_is. rewrite Hsl_n, Hh_n. cbn. auto.
     - intros Hf. discriminate Hf.
-    - intros j Hj. rewrite Hn' in Hj. cbn [m_opened m' b2z] in Hj.
-      unfold get_slot, m'. cbn [m_frags]. rewrite nth_set_nth_neq.
-      + apply H8. rewrite Ho. cbn. lia.
-      + rewrite Hslot. rewrite Z.mod_small by lia. lia.
-    - intros i Hi Hw. rewrite Hn' in Hw. rewrite Hh_lt by lia.
+    - intros i Hi. rewrite Hn' in Hi. cbn [m_opened m_base m' b2z] in Hi.
+      rewrite Hsl_other by lia. apply H8. rewrite Ho. cbn. lia.
+    - intros i Hi Hw. rewrite Hn' in Hw. change (m_base m') with (m_base m) in Hi. rewrite Hh_lt by lia.
       rewrite Hlk_o; [apply H9; lia|]. unfold p. intros Eq. injection Eq as _ Eq. lia.
     - intros _. exists (mkfile (m_patpmt m) false). split; [exact Hlk|]. cbn. now apply good_pp_data.
-    - intros Hz. rewrite Hlk_o by discriminate. apply H11. exact Hz.
+    - intros Hz. change (nclosed m') with n in Hz. change (m_base m') with (m_base m) in Hz.
+      eapply (prev_ok_ext c m m'); [reflexivity|reflexivity| | |apply H11; lia].
+      + apply Hlk_o. discriminate.
+      + intros now0 id0 Hid. apply Hlk_o. unfold p. intros Eq. injection Eq as _ Eq. lia.
     - intros Hz. rewrite Hlk_o by discriminate. destruct (H12 Hz) as [e He]. exists e. rewrite He.
       f_equal. f_equal. f_equal. apply live_playlist_ext; [|reflexivity].
       apply frags_in_playlist_ext; try reflexivity.
@@ -240,20 +288,24 @@ Proof.
   change [OCreate p; OWrite p (m_patpmt m)] with ([OCreate p] ++ [OWrite p (m_patpmt m)]).
   eapply chain_app; [exact Hch1|].
   eapply ch_cons; [|exact HI2|apply ch_nil].
-  cbn. split; [|lia]. unfold mle. rewrite Hn'. repeat split; try (cbn; lia). exists [now]. reflexivity.
+  apply rstep_plain; [exact I|exact I| | |cbn; lia|].
+  - apply mle_same_shape; reflexivity.
+  - split; [reflexivity|]. exists [now]. reflexivity.
+  - intros q [<-|[]]. exact Hbn.
 Qed.
 
 (* a list of operations on paths the invariant does not look at *)
 Definition irrelevant_op (c : cfg) (m : mux) (o : op) : Prop :=
-  not_removeall o /\ is_live_replace o = false /\ forall p, relevant c m p -> ~ In p (op_paths o).
+  not_removeall o /\ is_live_replace o = false /\ (forall p, relevant c m p -> ~ In p (op_paths o)) /\
+  not_mkdir o /\ touch_ok (m_base m) o.
 
 Lemma chain_irrelevant_ops c m s ops :
   Inv c m s -> Forall (irrelevant_op c m) ops -> chain c m s ops m /\ Inv c m (apply_all s ops).
 Proof.
   revert s. induction ops as [|o ops IH]; intros s HI HF.
   - split; [apply ch_nil|exact HI].
-  - inversion HF as [|? ? (Ha & Hb & Hc) HF']; subst.
-    destruct (chain_irrelevant_op c m s o HI Ha Hb Hc) as [Hch HI'].
+  - inversion HF as [|? ? (Ha & Hb & Hc & Hd & He) HF']; subst.
+    destruct (chain_irrelevant_op c m s o HI Ha Hb Hc Hd He) as [Hch HI'].
     destruct (IH (apply s o) HI' HF') as [Hch2 HI2].
     split; [|exact HI2].
     change (o :: ops) with ([o] ++ ops). eapply chain_app; eauto.
@@ -277,13 +329,15 @@ Proof.
   - constructor; try assumption.
     + intros i Hi Hw. rewrite Hlk_o; [now apply H9|]. rewrite Hcur. intros E. injection E as _ E. lia.
     + intros _. exists (mkfile (fdata f) true). split; [exact Hlk|exact Hg].
-    + intros Hz. rewrite Hlk_o; [now apply H11|]. rewrite Hcur. discriminate.
+    + intros Hz. eapply (prev_ok_ext c m m); [reflexivity|reflexivity| | |now apply H11].
+      * apply Hlk_o. rewrite Hcur. discriminate.
+      * intros now0 id0 Hid. apply Hlk_o. rewrite Hcur. intros E. injection E as _ E. lia.
     + intros Hz. rewrite Hlk_o; [now apply H12|]. rewrite Hcur. discriminate.
   - exists (mkfile (fdata f) true). auto.
 Qed.
 
 Definition rec_op (o : op) : Prop :=
-  not_removeall o /\ is_live_replace o = false /\ forall p, In p (op_paths o) -> p = PRec \/ p = PRecBak.
+  not_removeall o /\ not_mkdir o /\ is_live_replace o = false /\ forall p, In p (op_paths o) -> p = PRec \/ p = PRecBak.
 
 Lemma with_recmax_same m : with_recmax m (m_recmax m) = m.
 Proof. now destruct m. Qed.
@@ -308,21 +362,24 @@ Qed.
 
 Lemma rec_op_irrelevant c m o : m_opened m = false -> rec_op o -> irrelevant_op c m o.
 Proof.
-  intros Ho (Ha & Hb & Hc). repeat split; auto.
-  intros p Hr Hin. apply Hc in Hin.
-  destruct Hr as [->|[(i & _ & _ & ->)|[Hp _]]].
-  - destruct Hin; discriminate.
-  - destruct Hin; discriminate.
-  - congruence.
+  intros Ho (Ha & Hk & Hb & Hc). split; [exact Ha|]. split; [exact Hb|]. split; [|split; [exact Hk|]].
+  - intros p Hr Hin. apply Hc in Hin.
+    destruct Hr as [->|[(i & _ & _ & ->)|[[Hp _]|(_ & now0 & id0 & _ & ->)]]].
+    + destruct Hin; discriminate.
+    + destruct Hin; discriminate.
+    + congruence.
+    + destruct Hin; discriminate.
+  - apply touch_ok_nots. intros p Hin. apply Hc in Hin. destruct Hin as [-> | ->]; exact I.
 Qed.
 
 Lemma incr_frag_facts c m :
-  0 <= m_frag m /\ 0 <= m_nfrags m <= c_num c /\ (m_nfrags m < c_num c -> m_frag m = 0) ->
+  0 <= m_pfrag m <= m_base m /\ m_base m <= m_frag m /\ 0 <= m_nfrags m <= c_num c /\ (m_nfrags m < c_num c -> m_frag m = m_base m) ->
   let m1 := incr_frag c m in
   m_opened m1 = m_opened m /\ m_frags m1 = m_frags m /\ m_hist m1 = m_hist m /\ m_cur m1 = m_cur m /\
   m_patpmt m1 = m_patpmt m /\ m_fragts m1 = m_fragts m /\ m_recmax m1 = m_recmax m /\ nclosed m1 = nclosed m + 1 /\
   m_frag m <= m_frag m1 /\
-  (0 <= m_frag m1 /\ 0 <= m_nfrags m1 <= c_num c /\ (m_nfrags m1 < c_num c -> m_frag m1 = 0)).
+  (0 <= m_pfrag m1 <= m_base m1 /\ m_base m1 <= m_frag m1 /\ 0 <= m_nfrags m1 <= c_num c /\ (m_nfrags m1 < c_num c -> m_frag m1 = m_base m1)) /\
+  m_base m1 = m_base m /\ m_pfrag m1 = m_pfrag m.
 Proof.
   intros H. unfold incr_frag, nclosed. destruct (m_nfrags m =? c_num c) eqn:E; cbn.
   - apply Z.eqb_eq in E. repeat split; try reflexivity; lia.
@@ -342,7 +399,7 @@ Lemma close_ok c m s e m' ops :
   fs_lookup PLive (apply_all s ops) = Some (mkfile (print_live (c_stream c) (live_playlist c m' e)) true).
 Proof.
   intros HI Ho E. unfold close_fragment in E. rewrite Ho in E. cbn [negb] in E.
-  set (m0 := mkmux false (m_fragts m) (m_recmax m) (m_nfrags m) (m_frag m) (m_frags m) (m_patpmt m) (m_cur m) (m_hist m)) in *.
+  set (m0 := mkmux false (m_fragts m) (m_recmax m) (m_nfrags m) (m_frag m) (m_frags m) (m_patpmt m) (m_cur m) (m_hist m) (m_base m) (m_pfrag m)) in *.
   set (m1 := incr_frag c m0) in *.
   set (txt := print_live (c_stream c) (live_playlist c m1 e)) in *.
   set (ops1 := [OClose (m_cur m); OWriteFile PLiveBak txt; ORename PLiveBak PLive]) in *.
@@ -352,9 +409,11 @@ Proof.
   assert (HC : 2 <= cap c) by (apply cap_pos; lia).
   destruct (H6 Ho) as [Hsn Hcur]. fold n in Hsn, Hcur.
   rewrite Ho in H4. cbn [b2z] in H4. fold n in H4.
-  destruct (incr_frag_facts c m0 H2) as (F1 & F2 & F3 & F4 & F5 & F6 & F7 & F8 & F9 & F10). fold m1 in F1, F2, F3, F4, F5, F6, F7, F8, F9, F10.
-  cbn [m0 m_opened m_frags m_hist m_cur m_patpmt m_fragts m_recmax] in F1, F2, F3, F4, F5, F6, F7.
+  destruct (incr_frag_facts c m0 H2) as (F1 & F2 & F3 & F4 & F5 & F6 & F7 & F8 & F9 & F10 & F11 & F12).
+  fold m1 in F1, F2, F3, F4, F5, F6, F7, F8, F9, F10, F11, F12.
+  cbn [m0 m_opened m_frags m_hist m_cur m_patpmt m_fragts m_recmax m_base m_pfrag] in F1, F2, F3, F4, F5, F6, F7, F11, F12.
   change (nclosed m0) with n in F8. change (m_frag m0) with (m_frag m) in F9.
+  assert (Hbn : m_base m <= n) by (unfold n, nclosed; lia).
   set (s1 := apply s (OClose (m_cur m))) in *.
   set (s3 := apply_all s ops1).
   assert (Hs3 : s3 = apply (apply s1 (OWriteFile PLiveBak txt)) (ORename PLiveBak PLive)) by reflexivity.
@@ -368,46 +427,56 @@ Proof.
     rewrite lookup_apply_other; [|exact I|cbn; intuition discriminate].
     rewrite lookup_apply_other; [reflexivity|exact I|cbn; intuition discriminate]. }
   assert (Hsl : forall i, sl c m1 i = sl c m i) by (intro i; unfold sl, get_slot; now rewrite F2).
-  assert (Hhn : forall i, hnow m1 i = hnow m i) by (intro i; unfold hnow; now rewrite F3).
+  assert (Hhn : forall i, hnow m1 i = hnow m i) by (intro i; unfold hnow; now rewrite F3, F11).
   (* the invariant for the state after incrFrag holds once the playlist has been renamed into place *)
   assert (HI1 : forall m2, (exists r, m2 = with_recmax m1 r) -> Inv c m2 s3).
   { intros m2 [r ->]. apply inv_with_recmax.
     constructor; try assumption.
     - now rewrite F2.
-    - rewrite F3, F1, F8. cbn [b2z]. lia.
-    - intros i Hi Hw. rewrite F8 in Hw. unfold slot_is. rewrite Hsl, Hhn.
+    - rewrite F3, F1, F8, F11. cbn [b2z]. lia.
+    - intros i Hi Hw. rewrite F8 in Hw. rewrite F11 in Hi. unfold slot_is. rewrite Hsl, Hhn.
       destruct (Z.eq_dec i n) as [->|Hne]; [exact Hsn|]. apply H5; [lia|]. fold n. lia.
     - rewrite F1. discriminate.
-    - intros _ Hcap. rewrite F8 in *. unfold slot_is. rewrite Hsl, Hhn.
+    - intros _ Hcap. rewrite F8, F11 in *. unfold slot_is. rewrite Hsl, Hhn.
       assert (Es : sl c m (n + 1) = sl c m (n + 1 - cap c)).
       { unfold sl. f_equal. f_equal. rewrite <- (mod_shift (n + 1 - cap c) (cap c)) by lia. f_equal. lia. }
       rewrite Es. apply H5; [lia|]. fold n. lia.
-    - intros j Hj. rewrite F8, F1 in Hj. cbn [b2z] in Hj. unfold get_slot. rewrite F2. apply H8.
+    - intros i Hi. rewrite F8, F1, F11 in Hi. cbn [b2z] in Hi. rewrite Hsl. apply H8.
       rewrite Ho. cbn [b2z]. fold n. lia.
-    - intros i Hi Hw. rewrite F8 in Hw. rewrite Hhn, Hts3.
+    - intros i Hi Hw. rewrite F8 in Hw. rewrite F11 in Hi. rewrite Hhn, Hts3.
       destruct (Z.eq_dec i n) as [->|Hne].
       + rewrite <- Hcur. exists fc. auto.
       + destruct HIa as [_ _ _ _ _ _ _ _ G9 _ _ _ _]. apply G9; [lia|]. fold n. lia.
     - rewrite F1. discriminate.
-    - rewrite F8. intros Hz. exfalso. unfold n, nclosed in Hz. lia.
+    - rewrite F8, F11. intros Hz. exfalso. lia.
     - intros _. exists e. exact Hlive3.
     - intros j. unfold get_slot. rewrite F2. apply H13. }
   (* the operations up to the rename *)
   assert (Hch1 : forall m2, (exists r, m2 = with_recmax m1 r) -> chain c m s ops1 m2).
   { intros m2 Hm2. unfold ops1.
-    eapply ch_cons with (m1 := m); [split; [apply mle_refl|cbn; lia]|exact HIa|].
+    assert (Htc : touch_ok (m_base m) (OClose (m_cur m))).
+    { intros q [<-|[]]. rewrite Hcur. exact Hbn. }
+    eapply ch_cons with (m1 := m); [apply rstep_same; [exact I|exact I|reflexivity|exact Htc]|exact HIa|].
     fold s1.
     assert (Hb : Inv c m (apply s1 (OWriteFile PLiveBak txt))).
     { eapply inv_ext; [|exact HIa]. intros p Hr. apply lookup_apply_other; [exact I|].
-      cbn. intros [Eq|[]]. subst p. destruct Hr as [Hr|[(i & _ & _ & Hr)|[_ Hr]]]; try discriminate. rewrite Hcur in Hr. discriminate. }
-    eapply ch_cons with (m1 := m); [split; [apply mle_refl|cbn; lia]|exact Hb|].
+      cbn. intros [Eq|[]]. subst p.
+      destruct Hr as [Hr|[(i & _ & _ & Hr)|[[_ Hr]|(_ & now0 & id0 & _ & Hr)]]]; try discriminate. rewrite Hcur in Hr. discriminate. }
+    eapply ch_cons with (m1 := m); [apply rstep_same; [exact I|exact I|reflexivity|]|exact Hb|].
+    { apply touch_ok_nots. intros q [<-|[]]. exact I. }
     eapply ch_cons with (m1 := m2); [| |apply ch_nil].
-    - destruct Hm2 as [r ->]. cbn [rstep is_live_replace]. split.
-      + unfold mle. replace (nclosed (with_recmax m1 r)) with (nclosed m1) by reflexivity.
+    - destruct Hm2 as [r ->]. apply rstep_plain; [exact I|exact I| | | |].
+      + unfold mle, shown. replace (nclosed (with_recmax m1 r)) with (nclosed m1) by reflexivity.
         replace (m_frag (with_recmax m1 r)) with (m_frag m1) by reflexivity.
-        replace (m_hist (with_recmax m1 r)) with (m_hist m1) by reflexivity.
-        rewrite F8, F3. fold n. repeat split; try lia. exists []. now rewrite app_nil_r.
+        replace (m_base (with_recmax m1 r)) with (m_base m1) by reflexivity.
+        replace (m_pfrag (with_recmax m1 r)) with (m_pfrag m1) by reflexivity.
+        rewrite F8, F11. fold n.
+        replace (n + 1 =? m_base m) with false by (symmetry; apply Z.eqb_neq; lia).
+        destruct (n =? m_base m); lia.
+      + split; [exact (eq_sym F11)|]. exists []. replace (m_hist (with_recmax m1 r)) with (m_hist m1) by reflexivity.
+        now rewrite F3, app_nil_r.
       + replace (nclosed (with_recmax m1 r)) with (nclosed m1) by reflexivity. rewrite F8. reflexivity.
+      + apply touch_ok_nots. intros q [<-|[<-|[]]]; exact I.
     - rewrite <- Hs3. now apply HI1. }
   (* record playlist, then deletion *)
   destruct (if (c_mode c =? 0) || (c_mode c =? 1) then write_record c m1 (apply_all s ops1) else (m1, [])) as [m2 ops2] eqn:E2.
@@ -430,20 +499,23 @@ Proof.
   assert (Hirr3 : Forall (irrelevant_op c m2) ops3).
   { unfold ops3. destruct (c_mode c =? 2); [|constructor].
     cbn zeta. destruct (fi_named (get_frag c m2 (m_nfrags m2))) eqn:Enamed; [|constructor].
-    constructor; [|constructor]. repeat split; try exact I.
-    intros p Hr [Eq|[]]. subst p.
+    constructor; [|constructor].
     assert (Hd : get_frag c m2 (m_nfrags m2) = sl c m2 (nclosed m2)) by reflexivity.
     rewrite Hd in *.
-    destruct (Z_lt_le_dec (nclosed m2) (cap c)) as [Hlt|Hge].
-    - (* the slot was never used: no file name *)
+    assert (Hb2 : m_base m2 = m_base m) by (destruct Hm2 as [r ->]; exact F11).
+    assert (Hge : m_base m2 + cap c <= nclosed m2).
+    { destruct (Z_lt_le_dec (nclosed m2) (m_base m2 + cap c)) as [Hlt|Hge]; [|exact Hge].
+      (* the slot was never used: no file name *)
       destruct HI2 as [_ _ _ _ _ _ _ G8 _ _ _ _ _].
-      specialize (G8 (Z.to_nat (nclosed m2))). unfold sl in Enamed.
-      rewrite Z.mod_small in Enamed by lia. rewrite G8 in Enamed; [discriminate|].
-      rewrite Ho2. cbn [b2z]. lia.
-    - destruct HI2 as [_ _ _ _ _ _ G7 _ _ _ _ _ _]. destruct (G7 Ho2 Hge) as (Gid & _ & Gnow).
+      rewrite (G8 (nclosed m2)) in Enamed; [discriminate|].
+      rewrite Ho2. cbn [b2z]. lia. }
+    destruct HI2 as [_ _ _ _ _ _ G7 _ _ _ _ _ _]. destruct (G7 Ho2 Hge) as (Gid & _ & Gnow).
+    split; [exact I|]. split; [reflexivity|]. split; [|split; [exact I|]].
+    - intros p Hr [Eq|[]]. subst p.
       unfold fi_path in Hr. rewrite Gid, Gnow in Hr.
-      destruct Hr as [Hr|[(i & Hi0 & Hi & Hr)|[Hr _]]]; [discriminate| |congruence].
-      injection Hr as _ Hr. lia. }
+      destruct Hr as [Hr|[(i & Hi0 & Hi & Hr)|[[Hr _]|(Hr & _)]]]; [discriminate| |congruence|lia].
+      injection Hr as _ Hr. lia.
+    - intros p [<-|[]]. unfold fi_path. rewrite Gid. lia. }
   destruct (chain_irrelevant_ops c m2 (apply_all s3 ops2) ops3 HI3 Hirr3) as [Hch3 HI4].
   assert (Hall : apply_all s (ops1 ++ ops2 ++ ops3) = apply_all (apply_all s3 ops2) ops3).
   { unfold s3. now rewrite !apply_all_app. }
@@ -505,11 +577,11 @@ Proof. intros E. unfold upd_dur. rewrite E, Z.ltb_irrefl. reflexivity. Qed.
 Lemma upd_dur_cur c m s ts :
   Inv c m s -> m_opened m = true -> force_split c m ts = false ->
   let m2 := upd_dur m (slot c m (m_nfrags m)) ts in
-  Inv c m2 s /\ mle m m2 /\ nclosed m2 = nclosed m /\ m_patpmt m2 = m_patpmt m /\ m_opened m2 = true.
+  Inv c m2 s /\ mle m m2 /\ same_pub m m2 /\ nclosed m2 = nclosed m /\ m_patpmt m2 = m_patpmt m /\ m_opened m2 = true.
 Proof.
   intros HI Ho Hforce. cbn zeta. unfold upd_dur.
-  assert (Htriv : Inv c m s /\ mle m m /\ nclosed m = nclosed m /\ m_patpmt m = m_patpmt m /\ m_opened m = true).
-  { split; [exact HI|]. split; [apply mle_refl|]. auto. }
+  assert (Htriv : Inv c m s /\ mle m m /\ same_pub m m /\ nclosed m = nclosed m /\ m_patpmt m = m_patpmt m /\ m_opened m = true).
+  { split; [exact HI|]. split; [apply mle_refl|]. split; [apply same_pub_refl|]. auto. }
   destruct (m_fragts m <? ts) eqn:Elt; [|exact Htriv].
   set (k := slot c m (m_nfrags m)). set (f := get_slot m k).
   destruct (f_ltb (fi_dur f) _); [|exact Htriv]. clear Htriv.
@@ -520,24 +592,23 @@ Proof.
   assert (HC : 2 <= cap c) by (apply cap_pos; lia).
   set (m2 := set_slot m k f').
   assert (Hn0 : 0 <= n) by (unfold n, nclosed; lia).
+  assert (Hbn : m_base m <= n) by (unfold n, nclosed; lia).
   assert (Hsl_o : forall i, i <> n -> - cap c < i - n < cap c -> sl c m2 i = sl c m i).
   { intros i Hne Hd. unfold m2. rewrite Hk. apply sl_other; lia. }
   assert (Hsl_n : sl c m2 n = f').
   { unfold sl, get_slot, m2, set_slot, with_frags. cbn [m_frags]. rewrite <- Hk. apply nth_set_nth_eq.
     rewrite H3, Hk. apply mod_to_nat_lt. lia. }
   assert (Hf : sl c m n = f) by reflexivity.
-  split; [|split; [|split; [|split]]]; try reflexivity.
+  split; [|split; [|split; [|split; [|split]]]]; try reflexivity.
   - constructor; try assumption.
     + unfold m2, set_slot, with_frags. cbn [m_frags]. now rewrite set_nth_length.
     + intros i Hi Hw. change (nclosed m2) with n in Hw. unfold slot_is. rewrite Hsl_o by lia. apply H5; auto.
     + intros _. change (nclosed m2) with n. destruct (H6 Ho) as [(A & B & C) D]. fold n in A, B, C, D.
       split; [|exact D]. unfold slot_is. rewrite Hsl_n. rewrite Hf in A, B, C. cbn. auto.
     + intros Hf'. change (m_opened m2) with (m_opened m) in Hf'. congruence.
-    + intros j Hj. change (nclosed m2) with n in Hj. change (m_opened m2) with (m_opened m) in Hj.
-      rewrite Ho in Hj. cbn [b2z] in Hj.
-      unfold get_slot, m2, set_slot, with_frags. cbn [m_frags]. rewrite nth_set_nth_neq.
-      * apply H8. rewrite Ho. cbn [b2z]. fold n. lia.
-      * rewrite Hk. rewrite Z.mod_small by lia. lia.
+    + intros i Hi. change (nclosed m2) with n in Hi. change (m_opened m2) with (m_opened m) in Hi.
+      change (m_base m2) with (m_base m) in Hi. rewrite Ho in Hi. cbn [b2z] in Hi.
+      rewrite Hsl_o by lia. apply H8. rewrite Ho. cbn [b2z]. fold n. lia.
     + intros Hz. destruct (H12 Hz) as [e He]. exists e. rewrite He. f_equal. f_equal. f_equal.
       symmetry. apply live_playlist_ext; [|reflexivity].
       apply frags_in_playlist_ext; try reflexivity.
@@ -548,8 +619,8 @@ Proof.
       apply Z.ltb_lt in Elt. unfold force_split in Hforce. apply orb_false_elim in Hforce. destruct Hforce as [Hf1 _].
       apply andb_false_elim in Hf1. destruct Hf1 as [Hf1|Hf1]; [apply Z.ltb_ge in Hf1; lia|].
       apply Z.ltb_ge in Hf1. lia.
-  - unfold mle. change (nclosed m2) with n. change (m_frag m2) with (m_frag m). change (m_hist m2) with (m_hist m).
-    repeat split; try lia. exists []. now rewrite app_nil_r.
+  - apply mle_same_shape; reflexivity.
+  - split; [reflexivity|]. exists []. change (m_hist m2) with (m_hist m). now rewrite app_nil_r.
   - exact Ho.
 Qed.
 
@@ -570,17 +641,17 @@ Proof.
         injection E as <- <-. rewrite <- C1 in Hpp.
         destruct (reopen_ok c m1 (apply_all s o1) ts b false now m3 o3 B1 Hpp E3) as (A3 & B3 & C3 & _).
         split; [eapply chain_app; eauto|]. split; [now rewrite <- apply_all_app|congruence].
-    + destruct (upd_dur_cur c m s ts HI Ho Eforce) as (A2 & B2 & C2 & D2 & F2). fold fslot in A2, B2, C2, D2, F2.
+    + destruct (upd_dur_cur c m s ts HI Ho Eforce) as (A2 & B2 & B2' & C2 & D2 & F2). fold fslot in A2, B2, B2', C2, D2, F2.
       set (m2 := upd_dur m fslot ts) in *.
       destruct (f_ltb _ _).
       * injection E as <- <-. split; [|split; [exact A2|exact D2]].
-        eapply ch_silent; [exact B2|exact C2|exact A2|apply ch_nil].
+        eapply ch_silent; [exact B2|exact B2'|exact C2|exact A2|apply ch_nil].
       * cbn [apply_all fold_left] in E.
         destruct (reopen c m2 s ts b false now) as [m3 o3] eqn:E3.
         injection E as <- <-. rewrite <- D2 in Hpp.
         destruct (reopen_ok c m2 s ts b false now m3 o3 A2 Hpp E3) as (A3 & B3 & C3 & _).
         cbn [app]. split; [|split; [exact B3|congruence]].
-        eapply ch_silent; [exact B2|exact C2|exact A2|exact A3].
+        eapply ch_silent; [exact B2|exact B2'|exact C2|exact A2|exact A3].
   - destruct (reopen_ok c m s ts b true now m' ops HI Hpp E) as (A & B & C & _). auto.
 Qed.
 
@@ -603,10 +674,14 @@ Proof.
     - intros _. exists (mkfile (fdata f ++ pk) (fclosed f)). split.
       + rewrite lookup_apply, Hf, path_eqb_refl. reflexivity.
       + cbn. now apply good_data_app.
-    - intros Hz. rewrite Hlk_o; [now apply H11|]. rewrite Hcur. discriminate.
+    - intros Hz. eapply (prev_ok_ext c m1 m1); [reflexivity|reflexivity| | |now apply H11].
+      + apply Hlk_o. rewrite Hcur. discriminate.
+      + intros now0 id0 Hid. apply Hlk_o. rewrite Hcur. intros Eq. injection Eq as _ Eq. unfold nclosed in *. lia.
     - intros Hz. rewrite Hlk_o; [now apply H12|]. rewrite Hcur. discriminate. }
   split; [|split; [|exact C1]].
   - eapply chain_app; [exact A1|]. fold s1.
-    eapply ch_cons; [|exact HI2|apply ch_nil]. cbn. split; [apply mle_refl|lia].
+    eapply ch_cons; [|exact HI2|apply ch_nil]. apply rstep_same; [exact I|exact I|reflexivity|].
+    destruct B1 as [_ G2 _ _ _ G6 _ _ _ _ _ _ _]. destruct (G6 Ho1) as [_ Hcur].
+    intros q [<-|[]]. rewrite Hcur. unfold nclosed. lia.
   - rewrite <- apply_all_app. exact HI2.
 Qed.
